@@ -17,8 +17,8 @@ RULE = ("FITS cubes of 2-4 dims (celestial RA/DEC TAN pair plus WAVE / TIME axes
         "only) and an unknown name; with and without return_footprint. Non-trivial = always; distinct = whole case")
 TRUSTED = ["numpy indexing of the source data shifted by whole pixels is the reference for values and footprint",
            "the reproject package performs the regridding (modelled as order-1 interpolation, compared on every case)"]
-ASSUMPTIONS = ["for the adaptive algorithm only the pixels where reproject returns a value are compared (its default boundary mode blanks the edges)",
-               "values compared at atol 1e-9 for interpolation on identical / whole-pixel-shifted grids, 1e-6 for adaptive / exact on the identical grid",
+ASSUMPTIONS = ["for the adaptive algorithm (anti-aliased) only the pixels where reproject returns a value are compared, and only to within half a data step",
+               "values compared at atol 1e-6 (integer-valued data) for interpolation on identical / whole-pixel-shifted grids and for exact on the identical grid",
                "rescaled targets are checked for shape, wcs, unit, meta and global coords only"]
 AXES = {"RA": ("RA---TAN", "deg", 0.4, 1.0), "DEC": ("DEC--TAN", "deg", 0.5, 0.5), "WAVE": ("WAVE", "Angstrom", 0.2, 10.0),
         "TIME": ("TIME", "s", 0.5, 0.0), "FREQ": ("FREQ", "Hz", 3.0, 5.0)}
@@ -173,10 +173,12 @@ def run(case):
                 src = tuple(jj + ss for jj, ss in zip(j, s_arr))
                 if all(0 <= x < n for x, n in zip(src, shape)):
                     want[j] = data[src]; foot[j] = 1
-            tol = 1e-9 if case["algo"] == "interpolation" else 1e-6
+            tol = 1e-6      # (integer-valued data: 1e-6 still identifies the sample; the pixel-to-pixel map is accurate to ~1e-11)
             if case["algo"] == "adaptive":
-                # (reproject's adaptive algorithm gives no value near the edges of the source by default)
+                # reproject's adaptive algorithm is an anti-aliased resampling: it blanks the edges of the
+                # source by default and smooths, so only closeness (half a data step) is demanded of it
                 want = np.where(np.isnan(got), np.nan, want)
+                tol = 0.5
             if case["algo"] == "interpolation" or not any(case["shift"]):
                 if not np.allclose(got, want, rtol=0, atol=tol, equal_nan=True):
                     bad = np.argwhere(~np.isclose(got, want, rtol=0, atol=tol, equal_nan=True))[0]
@@ -220,7 +222,7 @@ def compare(case, r, m):
         for p, mv in zip(r["probes"], m["values"]):
             g = got[tuple(p)]
             want = np.nan if mv is None else (mv[0] / mv[1] if isinstance(mv, list) else float(mv))
-            if not (np.isnan(g) and np.isnan(want)) and not np.isclose(g, want, rtol=0, atol=1e-9):
+            if not (np.isnan(g) and np.isnan(want)) and not np.isclose(g, want, rtol=0, atol=1e-6):
                 return f"target pixel {p}: implementation {g} vs model {want}"
     return None
 
